@@ -663,6 +663,22 @@ def register(M):
         ev.write(pl, M.map_insert(ev, m, args[1], args[2]))
         return old
 
+    @reg("<std::collections::HashMap<K, V, S, A> as std::iter::Extend<(K, V)>>::extend",
+         "<std::collections::HashMap<K, V, S, A> as std::iter::Extend<(&'a K, &'a V)>>::extend")
+    def map_extend(ev, fr, prog, fty, args, cx):
+        """m.extend(iter of (k, v)): successive inserts (explicit for an unrolled iterator)."""
+        pl = place_of_ref(args[0])
+        m = ev.read(pl)
+        it = itv(ev, args[1])
+        if it.op == "eiter":
+            for g, x in M.eiter_items(it):
+                k, v = tm.tproj(x, 0), tm.tproj(x, 1)
+                m = tm.ite(g, M.map_insert(ev, m, k, v), m)
+            ev.write(pl, m)
+            return tm.UNIT
+        ev.write(pl, mk("mapextend", m, it))
+        return tm.UNIT
+
     @reg("std::collections::HashMap::<K, V, S, A>::remove")
     def map_remove(ev, fr, prog, fty, args, cx):
         pl = place_of_ref(args[0])
@@ -922,9 +938,25 @@ def register(M):
         it = itv(ev, args[0])
         init, f = args[1], args[2]
         if it.op == "eiter":
-            M.order_event(ev, "fold", it)
+            items = M.eiter_items(it)
+            if getattr(ev, "order_check", False) and not ev.discover and M.hashy(it) and len(items) >= 2:
+                # a fold over a hash-ordered iterator: also computed in the opposite order (compared by C10/H2b)
+                ev.discover += 1
+                try:
+                    racc = init
+                    for g, x in reversed(items):
+                        racc = tm.ite(g, M.apply_gated(ev, g, f, [racc, x]), racc)
+                finally:
+                    ev.discover -= 1
+                acc = init
+                for g, x in items:
+                    acc = tm.ite(g, M.apply_gated(ev, g, f, [acc, x]), acc)
+                ev.__dict__.setdefault("order_loops", []).append(
+                    {"loc": cx.get("loc") if isinstance(cx, dict) else None, "stack": tuple(ev.call_stack), "n": len(items),
+                     "names": {0: "fold"}, "cells": [(0, acc, racc)] if acc is not racc else []})
+                return acc
             acc = init
-            for g, x in M.eiter_items(it):
+            for g, x in items:
                 acc = tm.ite(g, M.apply_gated(ev, g, f, [acc, x]), acc)
             return acc
         l, _ = ev.reify(f, 2)
